@@ -8,7 +8,7 @@
    record itself is heap memory covered by the allocation-balance theorem and the sanitizer runs.) *)
 From Coq Require Import List NArith ZArith Bool Arith Lia.
 From Coq Require Import Strings.Byte.
-Require Import Bytes Codes Local Local6531 Domain Ip Special SpecialProofs Email LocalA DomainA IpA StrA SpecialA.
+Require Import Bytes Codes Local Local6531 Domain Ip Special SpecialProofs Email LocalA Local6531A DomainA IpA StrA SpecialA.
 Import ListNotations.
 Local Open Scope Z_scope.
 
@@ -70,6 +70,22 @@ Definition emailA (m : amode) (tld : bool) (len : nat) : resA :=
             bindA (ascii_domainA us (skipn (S ch) buf) (len - S ch)) (fun rc2 =>
               if negb (rc2 =? 0) then RetA rc2 else check_tldA tld ch len)
           else check_ipA (S ch) len))
+    end).
+
+(* is_6531_email: the same frame with the UTF-8 scanner; a host-name domain is handed to is_utf8_domain, i.e. to the IDN
+   library and a heap copy of its output — [ext] stands for that call (index of the first domain byte) *)
+Variable g : cfg.
+Definition email6A (ext : nat -> resA) (len : nat) : resA :=
+  if Nat.eqb len 0 then RetA E_EMAIL_EMPTY else
+  strrchrA buf AT 0 (fun r =>
+    match r with
+    | None => RetA E_DOMAIN_EMPTY
+    | Some ch =>
+      if Nat.eqb (S ch) len then RetA E_DOMAIN_EMPTY else
+      if Nat.ltb 64 ch then RetA E_LPART_TOO_LONG else
+      bindA (local6531A g buf ch) (fun rc =>
+        if negb (rc =? 0) then RetA rc else
+        rd (S ch) (fun b => if negb (beqb b LBR) then ext (S ch) else check_ipA (S ch) len))
     end).
 End A.
 
@@ -257,4 +273,44 @@ Proof.
     pose proof (ascii_domainA_refines us (d0 :: d') []) as Hdom. change (@nil byte ++ [NUL]) with [NUL] in Hdom. rewrite Hdom. cbn [bindA]. rewrite Hus.
     destruct (ascii_domain us (d0 :: d') [] =? 0); cbn [negb]; [|reflexivity].
     unfold buf. rewrite (check_tldA_spec tbl Htbl a tld (length l) (d0 :: d')); [reflexivity|split; [exact D1|split; assumption]].
+Qed.
+
+(* mode 6531: up to the call of is_utf8_domain the composer reads only inside the string; with an address-literal domain, or
+   when the local part or the frame is rejected, the access model returns the functional model's code without calling out *)
+Theorem email6A_refines tbl a idn g0 tld ext : nulfree a ->
+  email6A (a ++ [NUL]) g0 ext (length a) =
+  match split_last AT a with
+  | Some (l, d0 :: d') =>
+    if Nat.ltb 64 (length l) then RetA E_LPART_TOO_LONG
+    else if negb (local6531 g0 l =? 0) then RetA (local6531 g0 l)
+    else if beqb d0 LBR then RetA (rc (email idn g0 tbl M6531 tld a))
+    else ext (S (length l))
+  | _ => RetA (rc (email idn g0 tbl M6531 tld a))
+  end.
+Proof.
+  intros Ha0. destruct a as [|a0 a']; [reflexivity|].
+  unfold email. cbv iota. remember (a0 :: a') as a eqn:Ea.
+  assert (E0 : length a <> 0%nat) by (rewrite Ea; discriminate).
+  assert (Ha : nulfree a) by exact Ha0. clear Ha0.
+  unfold email6A. destruct (Nat.eqb_spec (length a) 0) as [Ez|_]; [contradiction|].
+  set (buf := a ++ [NUL]).
+  pose proof (at_0 a Ha) as (H1 & H2 & H3). fold buf in H1.
+  rewrite (strrchrA_spec buf AT ltac:(discriminate) a 0 _ H1 H2). cbn [Nat.add].
+  destruct (split_last AT a) as [[l d]|] eqn:Es; [|reflexivity].
+  pose proof (split_last_spec' _ _ _ _ Es) as Ed.
+  assert (Hatd : at_ a (S (length l)) d).
+  { replace (S (length l)) with (S (0 + length l)) by lia. apply (at_split a 0 a l AT d); [apply at_0; exact Ha|exact Ed]. }
+  destruct Hatd as (D1 & D2 & D3). fold buf in D1.
+  destruct d as [|d0 d'].
+  { destruct (Nat.eqb_spec (S (length l)) (length a)) as [_|E]; [reflexivity|cbn [length] in D3; lia]. }
+  destruct (Nat.eqb_spec (S (length l)) (length a)) as [E|_]; [cbn [length] in D3; lia|].
+  destruct (Nat.ltb 64 (length l)); [reflexivity|]. cbv zeta. cbn [local_of].
+  assert (Hbuf : buf = l ++ (AT :: d0 :: d') ++ [NUL]) by (unfold buf; rewrite Ed, <- app_assoc; reflexivity).
+  rewrite Hbuf at 1. rewrite (local6531A_refines g0 l ((AT :: d0 :: d') ++ [NUL])). cbn [bindA].
+  destruct (local6531 g0 l =? 0); cbn [negb]; [|reflexivity].
+  assert (Hbrs : nth_error buf (S (length l)) = Some d0) by (apply (skipn_nth buf (S (length l)) d0 (d' ++ [NUL])); exact D1).
+  unfold LocalA.rd. rewrite Hbrs.
+  destruct (beqb d0 LBR) eqn:Eb; cbn [negb]; [|reflexivity].
+  unfold buf. rewrite (check_ipA_spec a (S (length l)) (d0 :: d')); [|split; [exact D1|split; assumption]|apply beqb_eq in Eb; exact Eb].
+  unfold ip_result. destruct (check_ip (d0 :: d')) as [r f]. destruct f; reflexivity.
 Qed.
